@@ -10,6 +10,8 @@ segments
                       deliberate corruptions crc_xor (flip CRC bits), claim (payload_size field differs from
                       the bytes present), crc_len (CRC computed over only the first crc_len bytes of the
                       protected region — what a truncating slice sees)
+  ["t", recipe, n]    the first n bytes of the expansion of a recipe (a message cut off, e.g. by the end of the file)
+  ["p", recipe, k]    the expansion of a recipe repeated k times (period-READ repetition when it is READ bytes long)
   ["x", {...}]        the overlap construct of DESIGN 21 #15: wrapper A whose payload holds the head of a
                       CRC-valid message B that runs past A's end; after A come `mid`, a real message `c`
                       and `post` filler, all inside B
@@ -59,6 +61,10 @@ def build_seg(s):
         return build_msg(s[1])
     if k == 'x':
         return build_overlap(s[1])
+    if k == 't':
+        return build(s[1])[:s[2]]
+    if k == 'p':
+        return build(s[1]) * s[2]
     raise ValueError('c08_files: unknown segment %r' % (s,))
 
 
@@ -89,6 +95,10 @@ def describe(recipe, limit=12):
             out.append('overlap(size=%d)@%d' % (n, off))
         elif s[0] == 'h':
             out.append('bytes(%d)@%d' % (n, off))
+        elif s[0] == 't':
+            out.append('first%d(%s)@%d' % (s[2], describe(s[1], 4), off))
+        elif s[0] == 'p':
+            out.append('%dx(%s)@%d' % (s[2], describe(s[1], 4), off))
         else:
             out.append('%s(%d)@%d' % ('fill' if s[0] == 'z' else 'rand', n, off))
         off += n
